@@ -17,3 +17,7 @@ import SpoxModel.Props.C11
 #print axioms C11.group_normalization_deprecated_counterexample
 #print axioms C11.outputs_never_omitted
 #print axioms C11.batchnorm_outputs_counterexample
+#print axioms C11.conforming_call_total
+#print axioms C11.none_never_invents
+#print axioms C11.malformed_raises
+#print axioms C11.total_extends_call
